@@ -69,7 +69,7 @@ reg(["C13"], H("fixed::error_common", unwind=3, timeout=3000, mem_gb=24, tier="t
     desc="Error packet converts to Err", bounds={}))
 
 for _nm, _c, _tier in (("v5_count_30", 30, "thorough"), ("v5_count_31", 31, "thorough"), ("v5_count_300", 300, "thorough"), ("v7_count_31", 31, "thorough"), ("v7_count_257", 257, "thorough")):
-    reg(["C03", "C02", "C01"], H("fixed::" + _nm, unwind=_c + 2, loops=[(r"nfv5fixed", 52 * _c + 40)], timeout=2400, mem_gb=20, fs=32768, tier=_tier,
+    reg(["C03", "C02", "C01"], H("fixed::" + _nm, unwind=_c + 2, loops=[(r"nfv5fixed", 52 * _c + 40)], timeout=5400, mem_gb=20, fs=32768, tier=_tier,
         desc="%s::parse with header.count written = %d over exactly %d patterned records + 5 trailing bytes: decoded records == count, packet ends at 24+rec*count" % (_nm[:2].upper(), _c, _c),
         bounds={"count": _c, "record_bytes": "fixed pattern (concrete), last trailing byte symbolic"}))
 
@@ -90,7 +90,7 @@ kreg("k_signed_wide_kf", ["C04", "C05"], 16, 18, "finding witness: 8/16-byte sig
 kreg("k_signed_reexport_kf", ["C09", "C10"], 16, 18, "finding witness: 1/2/8/16-byte signed re-exported as 4 bytes", expect="fail", finding="C09-signed-width", tier="thorough")
 kreg("k_dur_secs", ["C04", "C05", "C01"], 17, 18, "duration(seconds) kernel, value-exact for widths <= 8; to_be_bytes never panics", tier="thorough")
 kreg("k_dur_millis", ["C04", "C05", "C01"], 17, 18, "duration(milliseconds) kernel (V9 FIRST/LAST_SWITCHED), value-exact for widths <= 8")
-kreg("k_dur_millis_w8", ["C04", "C05"], 17, 18, "duration(milliseconds) kernel, value-exact for widths <= 8 (64-bit division by constant: slow)", tier="thorough", timeout=2400)
+kreg("k_dur_millis_w8", ["C04", "C05"], 17, 18, "duration(milliseconds) kernel, value-exact for widths <= 8 (64-bit division by constant: slow)", tier="thorough", timeout=4800)
 kreg("k_dur_micros", ["C05", "C01"], 17, 18, "duration(microseconds) kernel", tier="thorough")
 kreg("k_dur_nanos", ["C05", "C01"], 17, 18, "duration(nanoseconds) kernel", tier="thorough")
 kreg("k_dur_millis_reexport_kf", ["C09", "C10"], 4, 6, "finding witness: millisecond durations re-exported as seconds", expect="fail", finding="C09-duration-reexport")
